@@ -39,8 +39,8 @@ const modPath = "github.com/Comcast/sheens/"
 
 // entry functions that get a function-entry yield, per package dir.
 var entries = map[string][]string{
-	"core":                    {"Step", "Walk", "consider", "try", "Exec", "SetSpec"},
-	"interpreters/ecmascript": {"Exec"},
+	"core":                    {"Step", "Walk", "consider", "try", "Exec", "SetSpec", "AddEmitted"},
+	"interpreters/ecmascript": {"Exec", "RunProgram"},
 	"sio":                     {"ProcessMsg", "RunMachine", "GetChanged", "SetMachine", "DeleteMachine", "Add", "add", "cancel", "Cancel", "run", "changed"},
 	"cmd/mcrew":               {"Process", "AddMachine", "RemMachine", "Route", "GetSpec", "WriteState", "GetCrew", "Add", "Rem", "toTimers"},
 	"crew":                    {"Copy"},
@@ -65,18 +65,19 @@ type edit struct {
 }
 
 type fileRW struct {
-	fset    *token.FileSet
-	info    *types.Info
-	src     []byte
-	tf      *token.File
-	pkgDir  string
-	edits   []edit
-	fn      string // current function name for sites
-	counts  map[string]int
-	usesSim bool
-	usesExe bool
-	sites   map[string]int
-	notes   []string
+	fset     *token.FileSet
+	info     *types.Info
+	src      []byte
+	tf       *token.File
+	pkgDir   string
+	edits    []edit
+	fn       string // current function name for sites
+	counts   map[string]int
+	usesSim  bool
+	usesExe  bool
+	usesPool bool
+	sites    map[string]int
+	notes    []string
 }
 
 func (r *fileRW) off(p token.Pos) int { return r.tf.Offset(p) }
@@ -210,6 +211,9 @@ func (r *fileRW) apply(f *ast.File) []byte {
 	if r.usesExe {
 		imp += `; import simexec "verif/sim/simexec"`
 		r.edits = append(r.edits, edit{len(r.src), len(r.src), len(r.edits), "\nvar _ = exec.ErrNotFound\n"})
+	}
+	if r.usesPool {
+		r.edits = append(r.edits, edit{len(r.src), len(r.src), len(r.edits), "\nvar _ sync.Mutex\n"})
 	}
 	if imp != "" {
 		r.insert(f.Name.End(), imp)
@@ -410,12 +414,27 @@ func (r *fileRW) expr(n ast.Node) {
 		case *ast.FuncLit:
 			r.block(x.Body)
 			return false
+		case *ast.SelectorExpr:
+			if id, ok := x.X.(*ast.Ident); ok && x.Sel.Name == "Pool" {
+				if pn, ok := r.info.Uses[id].(*types.PkgName); ok && pn.Imported().Path() == "sync" {
+					// (not used by the shipped code) which pooled object a Get returns is a tape decision
+					r.replace(x.Pos(), x.End(), "sim.Pool")
+					r.usesSim = true
+					r.usesPool = true
+					r.sites["pool"]++
+				}
+			}
 		case *ast.CallExpr:
 			if sel, ok := x.Fun.(*ast.SelectorExpr); ok {
 				if id, ok := sel.X.(*ast.Ident); ok {
 					if pn, ok := r.info.Uses[id].(*types.PkgName); ok {
 						switch {
 						case pn.Imported().Path() == "time" && sel.Sel.Name == "AfterFunc" && len(x.Args) == 2:
+							r.insert(x.Args[1].Pos(), fmt.Sprintf("sim.Wrap(%q, ", r.site("afterfunc")))
+							r.insert(x.Args[1].End(), ")")
+						case pn.Imported().Path() == "context" && sel.Sel.Name == "AfterFunc" && len(x.Args) == 2:
+							// (not used by the shipped code; the goroutine a context starts for the
+							// hook becomes a scheduled task like any other)
 							r.insert(x.Args[1].Pos(), fmt.Sprintf("sim.Wrap(%q, ", r.site("afterfunc")))
 							r.insert(x.Args[1].End(), ")")
 						case pn.Imported().Path() == "os/exec" && sel.Sel.Name == "Command" && r.pkgDir == "tools/expect":
